@@ -28,9 +28,12 @@ inductive Kind where
   | stream | trace | connlimit | ratelimit | cbreaker | roundrobin | rebalancer | buffer
   deriving DecidableEq, Repr, Inhabited
 
-/-- `cbreaker.Fallback` option: the default 503 handler, `ResponseFallback{code,"text/fb","fb-body"}`, `RedirectFallback`. -/
+/-- `cbreaker.Fallback` option: the default 503 handler, `ResponseFallback{code,"text/fb","fb-body"}`, `RedirectFallback`
+(to `http://fallback.verif/x`; `suffix` is what `PreservePath` appends: the path of the request URL as the breaker sees it —
+the client's `/p`, or the empty path of the server URL `http://b0` once a balancer in front has re-targeted the request —
+and `""` without `PreservePath`). -/
 inductive Fallback where
-  | dflt | response (code : Nat) | redirect
+  | dflt | response (code : Nat) | redirect (suffix : String)
   deriving DecidableEq, Repr, Inhabited
 
 /-- Configuration (and, for the stateful layers, the state the configuration has been driven into). -/
@@ -167,7 +170,7 @@ def interventionResp (l : LayerCfg) : Resp :=
     match l.fallback with
     | .dflt => ⟨503, [sniffed], ascii "Service Unavailable"⟩
     | .response code => ⟨code, [("Content-Type", "text/fb")], ascii "fb-body"⟩
-    | .redirect => ⟨302, [sniffed, ("Location", "http://fallback.verif/x")], ascii "Found"⟩
+    | .redirect pp => ⟨302, [sniffed, ("Location", "http://fallback.verif/x" ++ pp)], ascii "Found"⟩
   | .roundrobin | .rebalancer => ⟨500, [sniffed], ascii "Internal Server Error"⟩
   | .buffer => ⟨413, [sniffed], ascii "Request Entity Too Large"⟩
   | .stream | .trace => ⟨0, [], []⟩
